@@ -5,7 +5,11 @@ package main
 
 import (
 	"sort"
+	"strconv"
+	"strings"
 
+	"golang.org/x/perf/benchfmt"
+	"golang.org/x/perf/benchproc"
 	"golang.org/x/perf/internal/verifh/hx"
 )
 
@@ -330,6 +334,47 @@ func genUnlisted(r *hx.Rand) Scenario {
 	return sc
 }
 
+// bigCase: ONE default-ordered field with far more than 65536 distinct values observed in non-byte
+// order (decreasing numerals). Only probes are printed: Less(k[i], k[j]) must be i < j (first
+// observation order), and SortKeys of all keys must start with the first and end with the last
+// observed value. The driver computes the expected answers arithmetically from the case line.
+func bigCase(id, n int, r *hx.Rand) {
+	var pp benchproc.ProjectionParser
+	p, err := pp.Parse("a", nil)
+	if err != nil {
+		panic(err)
+	}
+	keys := make([]benchproc.Key, n)
+	index := make(map[benchproc.Key]int, n)
+	for i := 0; i < n; i++ {
+		res := &benchfmt.Result{Name: benchfmt.Name("B"),
+			Config: []benchfmt.Config{{Key: "a", Value: []byte(strconv.Itoa(n - i)), File: true}}}
+		keys[i] = p.Project(res)
+		index[keys[i]] = i
+	}
+	pairs := [][2]int{{0, 65536}, {1, 65537}, {65535, 65536}, {65536, 0}, {65537, 1}, {0, 1}, {65536, 65537}, {n - 1, 0}, {0, n - 1}, {65536, 65535}}
+	for i := 0; i < 12; i++ {
+		pairs = append(pairs, [2]int{r.Intn(n), r.Intn(n)})
+	}
+	var ps []string
+	bits := make([]byte, len(pairs))
+	for i, pr := range pairs {
+		ps = append(ps, strconv.Itoa(pr[0])+"-"+strconv.Itoa(pr[1]))
+		bits[i] = '0'
+		if keys[pr[0]].Less(keys[pr[1]]) {
+			bits[i] = '1'
+		}
+	}
+	sorted := append([]benchproc.Key(nil), keys...)
+	for i := len(sorted) - 1; i > 0; i-- {
+		j := r.Intn(i + 1)
+		sorted[i], sorted[j] = sorted[j], sorted[i]
+	}
+	benchproc.SortKeys(sorted)
+	hx.Printf("case %d big=%d pairs=%s s=1 tag=big\n", id, n, strings.Join(ps, ","))
+	hx.Printf("sobs %d probe=%s first=%d second=%d last=%d\n", id, string(bits), index[sorted[0]], index[sorted[1]], index[sorted[n-1]])
+}
+
 func main() {
 	defer hx.Flush()
 	r := hx.NewRand(9)
@@ -342,6 +387,10 @@ func main() {
 		}
 		id++
 	}
+	if shard == 0 {
+		bigCase(id, hx.N(66000, 131073), shuf)
+	}
+	id++
 	n := hx.N(1500, 40000)
 	for i := 0; i < n; i++ {
 		sc := genScenario(r)
